@@ -61,6 +61,19 @@ impl KFold {
     }
 }
 
+/// Verification hooks: the crate-private index and mask computation behind `split`.
+#[cfg(feature = "verif")]
+impl KFold {
+    /// see `test_indices`
+    pub fn verif_test_indices<T: RealNumber, M: Matrix<T>>(&self, x: &M) -> Vec<Vec<usize>> {
+        self.test_indices(x)
+    }
+    /// see `test_masks`
+    pub fn verif_test_masks<T: RealNumber, M: Matrix<T>>(&self, x: &M) -> Vec<Vec<bool>> {
+        self.test_masks(x)
+    }
+}
+
 impl Default for KFold {
     fn default() -> KFold {
         KFold {
